@@ -50,21 +50,33 @@ NOSCHEME_SOURCES = ["noscheme", ":x", "vfa", "vf_a:x", " vfa:x", "-vfa:x"]
 _LOG: List[Any] = []
 
 
+_GEN = [0]
+_RUNS = [0]
+
+
 def register():
+    """(Re-)register a fresh backend class for every scheme.  An application may replace the backend of a scheme at any time;
+    the class that is registered when update()/commit() runs is the one that must be called: a call that lands in a class of an
+    earlier registration is logged under `<scheme>@stale`."""
     from basyx.aas.backend import backends
+    _GEN[0] += 1
     made = {}
     for sc in SCHEMES:
-        def mk(sc=sc):
+        def mk(sc=sc, gen=_GEN[0]):
             class Rec(backends.Backend):
                 scheme = sc
 
                 @classmethod
+                def _name(cls):
+                    return cls.scheme if gen == _GEN[0] else cls.scheme + "@stale"
+
+                @classmethod
                 def commit_object(cls, committed_object, store_object, relative_path):
-                    _LOG.append(("commit", cls.scheme, store_object, committed_object, list(relative_path)))
+                    _LOG.append(("commit", cls._name(), store_object, committed_object, list(relative_path)))
 
                 @classmethod
                 def update_object(cls, updated_object, store_object, relative_path):
-                    _LOG.append(("update", cls.scheme, store_object, updated_object, list(relative_path)))
+                    _LOG.append(("update", cls._name(), store_object, updated_object, list(relative_path)))
             return Rec
         made[sc] = mk()
         backends.register_backend(sc, made[sc])
@@ -104,6 +116,9 @@ class Built:
         """-> (calls as [scheme, store path, object path, rel], error, raw log)"""
         del _LOG[:]
         err = None
+        _RUNS[0] += 1
+        if _RUNS[0] % 7 == 0:
+            register()               # the application swaps the backend classes between two calls
         try:
             o = self.objs[tuple(target)]
             if op == "commit":
